@@ -20,7 +20,11 @@ import xml.etree.ElementTree as ET
 PY = '/venv/bin/python'
 
 
-def sh(cmd, cwd, timeout=3600):
+def sh(cmd, cwd, timeout=3600, isolate=False):
+    if isolate:
+        # private network namespace: listener tests bind fixed ports and
+        # collide with suites running in other worktrees otherwise
+        cmd = "unshare -n sh -c 'ip link set lo up; %s'" % cmd
     p = subprocess.run(cmd, cwd=cwd, shell=True, stdout=subprocess.PIPE,
                        stderr=subprocess.STDOUT, timeout=timeout)
     return p.returncode, p.stdout.decode('utf-8', 'replace')
@@ -29,6 +33,10 @@ def sh(cmd, cwd, timeout=3600):
 def main():
     pid, wt = sys.argv[1], sys.argv[2]
     suite = '--no-suite' not in sys.argv
+    only = None
+    for a in sys.argv:
+        if a.startswith('--modules='):
+            only = a.split('=', 1)[1].split(',')
     out = {'property': pid, 'worktree': wt}
     rc, diff = sh('git diff -- pywbem pywbem_mock', wt)
     out['diff_lines'] = len(diff.splitlines())
@@ -62,35 +70,47 @@ def main():
     if suite:
         junit = '/tmp/verify_%s.junit.xml' % pid
         rc, o = sh('%s -m pytest -ra -q -p no:cacheprovider --timeout=900 '
-                   '--continue-on-collection-errors --junitxml=%s'
-                   % (PY, junit), wt, 7200)
+                   '--continue-on-collection-errors --junitxml=%s %s'
+                   % (PY, junit, ' '.join(only or [])), wt, 7200, isolate=True)
         out['suite_tail'] = o.strip().splitlines()[-1] if o.strip() else ''
         passed = set()
         for tc in ET.parse(junit).getroot().iter('testcase'):
             bad = any(ch.tag in ('failure', 'error', 'skipped')
                       for ch in tc)
             if not bad:
-                passed.add('%s::%s' % (tc.get('classname'), tc.get('name')))
+                passed.add(('%s::%s' % (tc.get('classname'),
+                                        tc.get('name'))).replace(wt, '/repo'))
         base = json.load(open('/root/.vp/BASELINE.json'))
-        lost = [t for t in base['stable_pass'] if t not in passed]
+        stable = base['stable_pass']
+        if only:
+            pref = tuple(m[:-3].replace('/', '.') for m in only)
+            stable = [t for t in stable if t.startswith(pref)]
+            out['only_modules'] = only
+        lost = [t for t in stable if t not in passed]
         if lost and len(lost) < 200:
             # port collisions with suites running concurrently in other
             # worktrees: re-run the affected test modules once, alone
-            mods = sorted({t.split('::')[0].replace('.', '/') + '.py'
-                           for t in lost if t.startswith('tests.unittest')})
+            def modpath(t):
+                parts = t.split('::')[0].split('.')
+                while parts and not parts[-1].startswith('test_'):
+                    parts.pop()
+                return '/'.join(parts) + '.py'
+            mods = sorted({modpath(t)
+                           for t in lost if t.startswith('tests.')})
             if mods:
                 rc, o = sh('%s -m pytest -q -p no:cacheprovider '
                            '--timeout=900 --junitxml=%s %s'
-                           % (PY, junit, ' '.join(mods)), wt, 7200)
+                           % (PY, junit, ' '.join(mods)), wt, 7200, isolate=True)
                 out['rerun'] = {'modules': mods,
                                 'tail': o.strip().splitlines()[-1]}
                 for tc in ET.parse(junit).getroot().iter('testcase'):
                     if not any(ch.tag in ('failure', 'error', 'skipped')
                                for ch in tc):
-                        passed.add('%s::%s' % (tc.get('classname'),
-                                               tc.get('name')))
+                        passed.add(('%s::%s' % (
+                            tc.get('classname'),
+                            tc.get('name'))).replace(wt, '/repo'))
                 lost = [t for t in lost if t not in passed]
-        out['stable_pass_total'] = len(base['stable_pass'])
+        out['stable_pass_total'] = len(stable)
         out['stable_pass_lost'] = lost[:20]
         out['stable_pass_lost_count'] = len(lost)
         ok = ok and not lost
